@@ -186,7 +186,7 @@ func pinnedC09(t *mon.T) {
 func runC09(r *mon.Run) {
 	r.Rule = "cases: Quantize(x, e) with e at every relative position to x's digits (padding, cutting 1..nd-1 digits, cutting exactly nd " +
 		"digits, 1..40 places below one unit), ties/near-ties at the cut, carries against the digit limit, e around Etiny and Emax, " +
-		"MinExponent down from 0, all 8 modes; RoundToIntegralExact/Value, Ceil and Floor around the integer boundary. Oracle: exact " +
+		"MinExponent down from 0, all 8 modes; kept digits equal to 2^k-2..2^k+1 (word sizes) or 10^k-1, 10^k with ties, near-ties and nines behind the cut; RoundToIntegralExact/Value, Ceil and Floor around the integer boundary. Oracle: exact " +
 		"integer division with remainder + independent rounding table. distinct_nontrivial = distinct (op,context,x,e) where at " +
 		"least one non-zero digit was discarded or NaN/InvalidOperation is demanded."
 	r.Assumptions = []string{"math/big is correct", "for RoundToIntegral*, Ceil, Floor only x whose integer result fits MaxExponent (and, for Ceil/Floor, Precision) is in the domain"}
@@ -246,6 +246,28 @@ func runC09(r *mon.Run) {
 		t.Count("narrow-emax")
 	})
 	r.Require("narrow-emax", 10000)
+	// the digits that are KEPT are a machine-word or power-of-ten boundary
+	// value (2^64-1 followed by a tail that rounds up, ...), so that the
+	// increment after the cut carries out of a word or into a new digit
+	r.Parallel("kept-boundary", r.N(30000, 2000000), func(t *mon.T) {
+		rr := t.Rng
+		c, x, j := gen.KeptBoundary(rr)
+		if rr.Chance(1, 3) {
+			c.P += int64(rr.Intn(4)) // room for the carry
+		}
+		switch rr.Intn(4) {
+		case 0, 1:
+			quantizeCase(t, "all", c, x, x.E+j)
+		default:
+			x.E = -j
+			if c.Emax < c.P {
+				c.Emax = c.P + int64(rr.Intn(10))
+			}
+			rtiCase(t, "value,flags", []string{"rtie", "rtiv", "ceil", "floor"}[rr.Intn(4)], c, x)
+		}
+		t.Count("kept-boundary")
+	})
+	r.Require("kept-boundary", 10000)
 	r.Parallel("integral", r.N(150000, 15000000), func(t *mon.T) {
 		c := gen.Context(t.Rng)
 		x := integralOperand(t.Rng, c)
